@@ -95,7 +95,7 @@ def run(ex, st, node, kind, sep=None):
         ikind, payload = loops.iter_sequence(ex, st1, itv)
         if ikind == "pyiter":
             t = payload
-            ok = z3.Or(Py.is_list(t), Py.is_tuple(t), Py.is_dict(t), Py.is_set(t))
+            ok = z3.Or(Py.is_list(t), Py.is_tuple(t), Py.is_dict(t), Py.is_set(t), Py.is_bytes(t))
             for st2, r in ex.need(st1, ok, "TypeError", "iter"):
                 if r is not None:
                     yield st2, r
